@@ -54,13 +54,17 @@ pub fn dump_facts() {
         for c in doc.constants {
             let toks: Vec<String> = c.tokens.iter().map(|t| hex_encode(t.as_bytes())).collect();
             println!(
-                "FACT\t{}\t{}\t{}\t{}\t{}\t{}",
+                "FACT\t{}\t{}\t{}\t{}\t{}\t{}\t{}",
                 if toks.is_empty() { "-".to_string() } else { toks.join(";") },
                 rat(&c.value),
                 unit_canon(&c.unit),
                 hex_encode(c.description.as_bytes()),
                 c.source.map(|s| s.to_string()).unwrap_or_else(|| "-".to_string()),
-                fname
+                fname,
+                {
+                    let d = c.unit.display(false).to_string();
+                    if d.is_empty() { "-".to_string() } else { hex_encode(d.as_bytes()) }
+                }
             );
         }
     }
